@@ -504,3 +504,26 @@ package catalog
 //@   attr trusted
 //@   modifies nothing
 //@   ensures imp(result1 == nil, result0 != nil)
+
+// ---------------------------------------------------------------------------
+// Tags of an interaction (C05): the tags a Tags directive names are registered tags and pairwise distinct objects, so
+// tagNames attaches the interaction to each of them once.
+//@ pred distinctTags(tt []*Tag) := 0 <= tt.off && forallp(i, j, at(tt, i), at(tt, j), imp(tt.off <= i && i < j && j < tt.off + len(tt), at(tt, i) != at(tt, j)))
+//@ func containsTag(tt, t)
+//@   property C05
+//@   requires 0 <= tt.off
+//@   modifies nothing
+//@   ensures[C05] imp(!result, forallp(j, at(tt, j), imp(tt.off <= j && j < tt.off + len(tt), at(tt, j) != t)))
+//@ func containsTag loop 1
+//@   invariant forallp(j, at(tt, j), imp(tt.off <= j && j < tt.off + rangeindex + 1, at(tt, j) != t))
+//@ func checkTagsDirective(d)
+//@   attr trusted
+//@   modifies nothing
+//@ func (*Catalog).tagsFromTagsDirective(c, d)
+//@   property C05
+//@   attr assumesafe
+//@   requires c != nil && c.Tags != nil && d != nil
+//@   modifies nothing
+//@   ensures[C05,@distinct-tags] imp(result1 == nil, distinctTags(result0))
+//@ func (*Catalog).tagsFromTagsDirective loop 1
+//@   invariant distinctTags(tt) && fresh(tt.arr)
